@@ -39,7 +39,7 @@ def _callers_request_only(ctx, model, f, depth=2) -> tuple[bool, str]:
         return False, f"{f.qualname} has no call site"
     params = [a.arg for a in f.node.args.args]
     for c in sites:
-        g = cfg_of(c.func, effects=effects_of(model))
+        g = cfg_of(c.func, effects=effects_of(model), inline=False)
         at = Atomizer(model, c.func.module, c.func.cls)
         n = [x for x in g.nodes if c.node in x.calls()]
         if not n:
@@ -178,6 +178,9 @@ def run(ctx: Ctx):
                 ctx.fail("_receive_message:send-in-try", g.loc(s), "an answer is sent inside the try "
                          "block and a later statement can raise into the handler that answers again")
 
+    # interprocedural: helpers of _receive_message that may answer ------------------------
+    _helper_sends(ctx, model, R, nc, F)
+
     # ---------------- R4 answer arms never answer ------------------------------------------
     ctx.rule("C07-R4", "nothing reachable from the answer arms (receive_cea/dwa/dpa, "
                        "_receive_app_answer) builds or sends an answer", floor=4)
@@ -236,6 +239,104 @@ def run(ctx: Ctx):
 
     # ---------------- R6 second submission fails ----------------------------------------------
     route_answer_discipline(ctx, "C07-R6")
+    from .common_node import waiting_table_keys
+    waiting_table_keys(ctx, "C07-R6b")
+    from . import c20
+    ctx.include(c20.run, {"C20-R2"}, "C07-R7",
+                "an answer built from a request has the request bit cleared and mirrors its "
+                "identifiers (header flow of Message.to_answer)", floor=5)
+
+
+def _sends_answer(model, F, f, _memo={}) -> bool:
+    """f (a Node method) can transmit a node-originated answer (directly or through callees)."""
+    key = id(f.node)
+    if key in _memo:
+        return _memo[key]
+    _memo[key] = False
+    res = False
+    for h in F.reachable_funcs([f], depth=4):
+        if h.cls is None or h.cls.name != "Node":
+            continue
+        if h.name in ("send_cer", "send_dwr", "send_dpr", "send_message"):
+            continue
+        for n in A.walk_no_nested(h.node):
+            if isinstance(n, ast.Call) and A.call_name(n) == "self.send_message":
+                res = True
+    _memo[key] = res
+    return res
+
+
+def _return_summary(model, F, f):
+    """[(truthiness of the returned constant or None if unknown, may_have_sent, surely_sent)]"""
+    g = cfg_of(f, effects=F)
+    senders = [n for n in g.nodes if n.kind in ("stmt", "test") and (
+        any(A.call_name(c) == "self.send_message" for c in n.calls()))]
+    out = []
+    ends = [n for n in g.nodes if n.kind == "stmt" and isinstance(n.ast, ast.Return)]
+    fall = [p for l, p in g.exit.pred if not (p.kind == "stmt" and isinstance(p.ast, ast.Return))]
+    for r in ends:
+        v = r.ast.value
+        truth = None
+        if v is None:
+            truth = False
+        elif isinstance(v, ast.Constant):
+            truth = bool(v.value)
+        may = any(g.can_reach(s, r) for s in senders)
+        sure = bool(senders) and g.dominated(r, senders)
+        out.append((truth, may, sure, g.loc(r)))
+    if fall:
+        may = any(any(g.can_reach(s, p) or s is p for p in fall) for s in senders)
+        out.append((False, may, False, f.loc()))
+    return out
+
+
+def _helper_sends(ctx, model, R, nc, F):
+    g = R.g
+    at = R.at
+    nodes = []        # (node, {label: may_send})
+    for n in g.nodes:
+        if n.kind not in ("stmt", "test"):
+            continue
+        info = {}
+        if any(A.call_name(c) == "self.send_message" for c in n.calls()):
+            info = {"*": True}
+        for c in n.calls():
+            nm = A.call_name(c)
+            if not nm.startswith("self.") or nm in ("self.send_message", "self._generate_answer"):
+                continue
+            h = nc.methods.get(nm.split(".", 1)[1])
+            if h is None or not _sends_answer(model, F, h):
+                continue
+            summ = _return_summary(model, F, h)
+            if n.kind == "test" and (n.ast is c or (isinstance(n.ast, ast.UnaryOp) and n.ast.operand is c)):
+                a = at.node_atom(n)
+                for lab in ("T", "F"):
+                    truth = (lab == "T") ^ a.flip
+                    may = any(m for t, m, s, w in summ if t is None or t == truth)
+                    info[lab] = info.get(lab, False) or may
+            else:
+                info["*"] = info.get("*", False) or any(m for t, m, s, w in summ)
+        if any(info.values()):
+            nodes.append((n, info))
+    cons = "_receive_message:one-answer-across-helpers"
+    ctx.inst(cons, rule="C07-R3", sample=[f"{g.loc(n)}: {n.text(50)} {i}" for n, i in nodes])
+    for a, ia in nodes:
+        for lab, dst in a.succ:
+            if lab in ("exc", "raise"):
+                continue
+            if not (ia.get("*") or ia.get(lab)):
+                continue
+            reach = g.reach([dst], skip_labels=("exc",))
+            for b, ib in nodes:
+                if b is a or b not in reach:
+                    continue
+                if any(ib.values()):
+                    ctx.fail(cons, g.loc(b), f"after `{a.text(60)}` (which may already have answered "
+                             f"the request{' although it reports the opposite' if lab == 'F' else ''}) "
+                             f"the handling continues to `{b.text(60)}`, which answers again: two "
+                             f"answers for one request", rule="C07-R3",
+                             steps=[f"{g.loc(a)}: {a.text(80)} [{lab}]", f"{g.loc(b)}: {b.text(80)}"])
+                    return
 
 
 def _site_tag(g, n, f) -> str:
